@@ -1912,6 +1912,28 @@ def exec_cmd(prog, rep, rid):
               'with 0 and the task is DONE')
 
 
+def is_range_loop(lp):
+    return isinstance(lp.iter, ast.Call) and dotted(lp.iter.func) == 'range'
+
+
+def keyed_label_loops(f, labels):
+    """the innermost `for` loops around the case label pieces which are no
+    range() loops and whose iterable does not (transitively) depend on the
+    rank count parameter: the set of branches is chosen by other data"""
+    ps = [p for p in f.params if p not in ('self', 'cls')]
+    if len(ps) < 2:
+        return []
+    ids = {id(x) for x in labels}
+    around = [n for n in walk(f.node) if isinstance(n, ast.For) and
+              any(id(x) in ids for x in walk(n))]
+    around = [lp for lp in around
+              if not any(o is not lp and any(x is o for x in walk(lp))
+                         for o in around)]
+    d = Deps(f.node)
+    return [lp for lp in around if not is_range_loop(lp) and
+            ps[1] not in d.expr_depends(lp.iter)]
+
+
 def rank_loop(f, labels=()):
     """the loop which emits one `N)` branch of the per-rank case per
     iteration: the range() loop of f - if there are several, the one around
@@ -1928,6 +1950,11 @@ def rank_loop(f, labels=()):
                              for o in around)]
         if around:
             loops = around
+    if not loops and labels:
+        # no range() loop at all: the loop around the case labels is the
+        # rank switch when what it iterates cannot be `all ranks` - it does
+        # not derive from the rank count (2nd parameter).  rank_case decides.
+        loops = keyed_label_loops(f, labels)
     if len(loops) != 1:
         raise AnalysisError('UNRECOGNISED-IDIOM %s: %d range() loops'
                             % (f.where, len(loops)))
@@ -2032,7 +2059,7 @@ def rank_case(prog, rep, rid):
         raise AnalysisError('UNRECOGNISED-IDIOM %s: no case label piece'
                             % f.where)
     lp, rv, _inner = rank_loop(f, [it.node for it in labels])
-    a = lp.iter.args
+    a = lp.iter.args if is_range_loop(lp) else []
     full = (len(a) == 1 and unparse(a[0]) == nr) or \
         (len(a) in (2, 3) and isinstance(a[0], ast.Constant) and
          a[0].value == 0 and unparse(a[1]) == nr and
@@ -5776,4 +5803,17 @@ SILENT += [] if not _R13 else [
         (_E, "        def _rank_cmds(rank_key):\n", "        def _rank_cmds(rank_key, entries):\n"),
         (_E, "                    entry = {rank_key: entry}\n", "                    entry = {rank_key: entry}\n                else:\n                    entry = dict(entry)\n"),
         (_E, "for cmd in _rank_cmds(str(rank_id))])", "for cmd in _rank_cmds(str(rank_id), entries)])")]),
+]
+_CASE = "        ret += 'case \"$RP_RANK\" in\\n'\n"
+_RL   = "        for rank_id in range(n_ranks):\n"
+_KEYS = "        rank_ids = set()\n        for entry in entries:\n            if isinstance(entry, dict):\n                rank_ids.update(int(x) for x in entry)\n\n"
+MUTATIONS += [
+    dict(name='R10.3 branches of the rank switch taken from the keys of the per-rank dicts (seed C10-k1)', rules=('R10.3',), edits=[
+        (_E, _CASE + _RL, _KEYS + _CASE + "        for rank_id in sorted(rank_ids):\n\n            if rank_id >= n_ranks:\n                continue\n")]),
+    dict(name='R10.3 branches of the rank switch taken from a set comprehension over the dict keys', rules=('R10.3',), edits=[
+        (_E, _RL, "        for rank_id in sorted({int(k) for e in entries\n                               if isinstance(e, dict) for k in e}):\n")]),
+]
+SILENT += [
+    dict(name='rank switch: keys named by the dicts collected for a log line, switch still over range(n_ranks)', edits=[
+        (_E, _CASE + _RL, _KEYS.replace('int(x) for x in entry', 'int(rk) for rk in entry') + "        self._log.debug('ranks with own commands: %s', sorted(rank_ids))\n" + _CASE + _RL)]),
 ]
